@@ -275,6 +275,63 @@ Theorem C19_genesis_zero_total_reads_absent : forall id ts bps,
 Proof. exact genesis_zero_total_reads_absent. Qed.
 Print Assumptions C19_genesis_zero_total_reads_absent.
 
+(** * Receipts and the hardfork configuration through the chain DB, across a restart
+      (chain/chaindb.go writeReceiptsAndOperations / getReceipts / getReceipt / WriteHardfork / Hardfork) *)
+From Verif Require Import Codec.ChainStore Codec.ChainStoreProofs.
+
+(** Receipts written under the stored configuration are read back by a restarted node whose
+    (possibly edited) configuration passes CheckCompatibility at a best block >= the block. *)
+Theorem C19_db_receipts_restart_roundtrip : forall c db best no bloom rs data,
+  check_compatibility c db best = true -> (no <= best)%N ->
+  Forall receipt_wf rs -> bloom_wf bloom -> (N.of_nat (List.length rs) < 2 ^ 32)%N ->
+  put_receipts (db_heights (List.length c) db) no bloom rs = Some data ->
+  get_receipts c no data = Some (bloom, List.map (receipt_view (v2_at c no) false) rs).
+Proof. exact db_receipts_restart_roundtrip. Qed.
+Print Assumptions C19_db_receipts_restart_roundtrip.
+
+(** Without that check (V2 height moved across the block) the reader uses the other format. *)
+Theorem C19_db_receipts_version_mismatch_refuted :
+  exists cw cr no rs data,
+    Forall receipt_wf rs /\ put_receipts cw no None rs = Some data /\
+    get_receipts cr no data <> Some (None, List.map (receipt_view (v2_at cw no) false) rs).
+Proof. exact db_receipts_version_mismatch_refuted. Qed.
+Print Assumptions C19_db_receipts_version_mismatch_refuted.
+
+(** getReceipt: correct below the length, an error above it, a panic AT it (bound test `>`). *)
+Theorem C19_get_receipt_spec : forall rs idx,
+  ((0 <= idx < Z.of_nat (List.length rs))%Z ->
+     exists r, get_receipt rs idx = GROk r /\ List.nth_error rs (Z.to_nat idx) = Some r) /\
+  ((idx < 0 \/ Z.of_nat (List.length rs) < idx)%Z -> get_receipt rs idx = GRErr).
+Proof. exact get_receipt_spec. Qed.
+Print Assumptions C19_get_receipt_spec.
+
+Theorem C19_get_receipt_total_refuted : forall rs, get_receipt rs (Z.of_nat (List.length rs)) = GRPanic.
+Proof. exact get_receipt_total_refuted. Qed.
+Print Assumptions C19_get_receipt_total_refuted.
+
+(** With the proposed repair (fixes/Fxx_c19_getreceipt_index_bound.diff) it is total. *)
+Theorem C19_get_receipt_fixed_total : forall rs idx, get_receipt_fixed rs idx <> GRPanic.
+Proof. exact get_receipt_fixed_total. Qed.
+Print Assumptions C19_get_receipt_fixed_total.
+
+(** A validated configuration is compatible with what it wrote itself, at every height. *)
+Theorem C19_write_read_hardfork_compatible : forall c best,
+  validate c = true -> restart_compatible (write_hardfork c) c best = true.
+Proof. exact write_read_hardfork_compatible. Qed.
+Print Assumptions C19_write_read_hardfork_compatible.
+
+(** FixDbConfig keeps stored heights and adopts the configuration's for missing keys only. *)
+Theorem C19_fix_db_keeps_stored : forall db c k x,
+  In (k, x) db -> NoDup (List.map fst db) -> db_get (fix_db db c) k = x.
+Proof. exact fix_db_keeps_stored. Qed.
+Print Assumptions C19_fix_db_keeps_stored.
+
+Theorem C19_fix_db_adds_missing : forall db c i,
+  ~ In (N.of_nat i + 2)%N (List.map fst db) -> (i < List.length c)%nat ->
+  db_get (fix_db db c) (N.of_nat i + 2)%N = List.nth i c 0%N.
+Proof. exact fix_db_adds_missing. Qed.
+Print Assumptions C19_fix_db_adds_missing.
+
 (** * Hardfork versions *)
 
 Theorem C19_fieldlists_hardfork : gen_struct_HardforkConfig = ["V2"; "V3"; "V4"; "V5"].
